@@ -402,7 +402,11 @@ func buildAdversarialScenario(rng *rand.Rand, thorough bool) (*scenario, int) {
 	if hideDeciders {
 		target = 6 + rng.Intn(3)
 	}
-	d, predicted, hidden := genAdversarial(rng, n, steps, width, target, 8*n)
+	tail := 8 * n
+	if advJoin {
+		tail = 24 * n // long enough for the rounds created around the change to be decided and delivered
+	}
+	d, predicted, hidden := genAdversarial(rng, n, steps, width, target, tail)
 	maxOrders := 10
 	if thorough {
 		maxOrders = 40
@@ -499,6 +503,13 @@ func init() {
 				}
 			}
 			sc.close()
+		}
+		for _, v := range r.Violations {
+			w := v.What
+			if len(w) > 300 {
+				w = w[:300]
+			}
+			println("KEY", v.Key, w)
 		}
 	}
 }
